@@ -511,10 +511,36 @@ func checkExtractHelpers(c *core.Ctx) {
 						st.Instances++
 						ev := &bpEval{}
 						got := ev.Call(cal, []pval{pSym("w", 32), pConst(uint64(pos), wp)})
-						ok := got.kind == pVec && got.bits[0] == pbit{k: 's', src: "w", i: int(pos)}
-						for i := 1; ok && i < 32; i++ {
-							if got.bits[i].k != '0' {
+						// the selected bit alone; in bit 0, or anywhere if this call's result
+						// is only ever tested against zero
+						ok := got.kind == pVec
+						at := -1
+						for i := 0; ok && i < 32; i++ {
+							switch {
+							case got.bits[i].k == '0':
+							case got.bits[i] == pbit{k: 's', src: "w", i: int(pos)} && at < 0:
+								at = i
+							default:
 								ok = false
+							}
+						}
+						if ok && at != 0 {
+							ok = at > 0
+							if call.Referrers() != nil {
+								for _, r := range *call.Referrers() {
+									bo, isB := r.(*ssa.BinOp)
+									if !isB || (bo.Op != token.EQL && bo.Op != token.NEQ) {
+										ok = false
+										continue
+									}
+									other := bo.Y
+									if other == ssa.Value(call) {
+										other = bo.X
+									}
+									if k, isC := kc(other); !isC || k != 0 {
+										ok = false
+									}
+								}
 							}
 						}
 						st.Ob(ok)
